@@ -17,7 +17,8 @@ rundemo() {
   fi
   t=$(ls "$S"/demo_test.go* 2>/dev/null | head -1)
   [ -z "$t" ] && { echo "no demo"; return 99; }
-  dir=$(grep -o -m1 -E '(learn/)?pkg/[a-z/]+' "$t" | head -1)
+  dir=$(grep -o -m1 -E 'learn/pkg/learn|pkg/(evaluator|parser|lexer|bytecode|cli/svg|cli)' "$t" | head -1)
+  [ -z "$dir" ] && dir=$(grep -o -m1 -E 'learn/pkg/learn|pkg/(evaluator|parser|lexer|bytecode|cli/svg|cli)' "$S/meta.json" | head -1)
   [ -z "$dir" ] && dir=pkg/evaluator
   dir=${dir%/}
   cp "$t" "$dir/zz_seeded_demo_test.go"
